@@ -23,7 +23,7 @@ SPEC = dict(
                  "default messages/scope as documented"],
     required=["sibling_sets", "loads_compared", "show_compared", "dry_update_compared", "bool_spelling:yes",
               "bool_spelling:on", "bool_spelling:1", "bool_spelling:TRUE", "bool_spelling:no", "glob_entries",
-              "legacy_section_loads", "explicit_self_entries_with_extra_pattern"],
+              "legacy_section_loads", "explicit_self_entries_with_extra_pattern", "ini_layout:inline", "ini_layout:mixed"],
     anchors=[("config", "_parse_cfg"), ("config", "_parse_toml"), ("config", "_parse_config"),
              ("config", "_parse_cfg_file_patterns"), ("config", "_iter_glob_expanded_file_patterns"),
              ("config", "_parse_raw_config")],
@@ -157,9 +157,19 @@ def serialise(a, syntax, R):
             if a["self_entry"] == "with-extra":
                 lines.append("    released as {version} !")
         for key, _fn, pats in a["entries"]:
-            lines.append(f"{key} =")
-            for p in pats:
-                lines.append(f"    {p}")
+            # all three layouts configparser accepts: patterns on continuation lines only; a single pattern on the
+            # key's own line; first pattern on the key line and the others on continuation lines
+            layout = R.choice(["standard", "standard", "inline", "mixed"])
+            if layout == "standard" or (layout == "inline" and len(pats) > 1 and R.random() < 0.5):
+                lines.append(f"{key} =")
+                for p in pats:
+                    lines.append(f"    {p}")
+                spelled["layout:standard"] = 1
+            else:
+                lines.append(f"{key} = {pats[0]}")
+                for p in pats[1:]:
+                    lines.append(f"    {p}")
+                spelled["layout:" + ("inline" if len(pats) == 1 else "mixed")] = 1
     return fname, "\n".join(lines) + "\n", spelled
 
 
@@ -228,7 +238,10 @@ def run_case(ctx, case):
     ctx.count("sibling_sets")
     for r in results:
         for k, sp in r["spelled"].items():
-            ctx.count("bool_spelling:" + sp)
+            if k.startswith("layout:"):
+                ctx.count("ini_" + k)
+            else:
+                ctx.count("bool_spelling:" + sp)
     if any("*" in key for key, _f, _p in a["entries"]):
         ctx.count("glob_entries")
     ntk = (tuple(sorted(k for k in a if k not in ("vp", "cur", "entries", "legacy"))), len(a["entries"]),
